@@ -509,11 +509,11 @@ impl Property for C08 {
     }
 
     fn rule() -> &'static str {
-        "proptest histories over pools of 1..64 buffers of 1..4096 bytes: single-shot and multishot pool reads/receives are started, polled, completed by the simulated kernel (which selects buffers from the ring exactly as K8 prescribes, incl. ENOBUFS and errors), dropped in flight; ReadBufs are edited, released (twice), dropped, dropped on another thread, re-read into; pool handles cloned/dropped. Ownership model bid -> Kernel | InCompletion | Owned(readbuf): every ring entry is well formed, never names an owned buffer, no bid is offered twice, a ReadBuf's bytes never change except by its own edits, release/drop offers exactly that bid exactly once, and at the end (no ReadBuf alive, nothing in flight) every buffer is offered again. Plus a long variant with > 65 536 release cycles (16-bit tail wrap). Non-trivial = all buffers were owned at once (ENOBUFS), or a pool read completed after its future was dropped, or the tail wrapped, or a buffer was dropped on another thread. Distinct = (pool class, classes, 16-bit case hash)."
+        "proptest histories over pools of 1..64 buffers of 1..4096 bytes: single-shot and multishot pool reads/receives are started, polled, completed by the simulated kernel (which selects buffers from the ring exactly as K8 prescribes, incl. ENOBUFS and errors), dropped in flight; ReadBufs are edited, released (twice), dropped, dropped on another thread, re-read into; pool handles cloned/dropped. Ownership model bid -> Kernel | InCompletion | Owned(readbuf): every ring entry is well formed, never names an owned buffer, no bid is offered twice, a ReadBuf's bytes never change except by its own edits, release/drop offers exactly that bid exactly once, and at the end (no ReadBuf alive, nothing in flight) every buffer is offered again. Plus a long variant with > 65 536 release cycles (16-bit tail wrap). C08b (1 of 4 cases): after 0..9 sequential take/release cycles (so that the release under test writes ring slot 0 in some cases) 1..8 buffers are taken, then 1..3 releaser threads drop their ReadBufs while a kernel thread performs 0..4 buffer selections, all under the baton scheduler (scheduling points at the pool lock, the ring-tail load and before/after the ring-tail store) following a generated tape; oracle: the kernel never gets a buffer a live ReadBuf owns nor the same buffer twice, every selected entry is well formed, and afterwards every released buffer is offered exactly once. Non-trivial (scheduled) = a context switch inside a10 with concurrent releases or kernel selections. Non-trivial = all buffers were owned at once (ENOBUFS), or a pool read completed after its future was dropped, or the tail wrapped, or a buffer was dropped on another thread. Distinct = (pool class, classes, 16-bit case hash)."
     }
 
     fn assumptions() -> Vec<&'static str> {
-        vec!["simulated kernel's provided-buffer ring handling follows K8", "concurrent releases are exercised sequentially here (another thread, joined); interleaved releases are the C08b scheduled sub-check"]
+        vec!["simulated kernel's provided-buffer ring handling follows K8", "interleavings are explored under sequential consistency only (C08b scheduled sub-check); the kernel reads the ring at a10's scheduling points, not between two machine instructions"]
     }
 }
 
